@@ -18,7 +18,7 @@ func init() {
 	spec := func(tier string) CheckSpec {
 		depth, budget := 5, 270*time.Second
 		if tier == "thorough" {
-			depth, budget = 6, 30*time.Minute
+			depth, budget = 6, 20*time.Minute
 		}
 		return CheckSpec{Level: "model_checking", Rule: searchRule, Assumptions: commonAssumptions, Budget: budget,
 			Units: []Unit{Search{Sc: Keys{Variant: "base"}, Depth: depth}},
